@@ -4,6 +4,7 @@ package code
 
 import (
 	"strconv"
+	"strings"
 	"time"
 
 	"github.com/tinode/chat/server/store"
@@ -38,8 +39,9 @@ func Harness_C12_code_attempts() {
 	ca := &authenticator{name: "code", codeLength: 4, lifetime: time.Hour, maxRetries: maxRetries}
 	pc := &verifPCache{m: map[string]string{}}
 	store.PCache = pc
-	cred := "email:alice@example.com"
-	key := "code_" + cred
+	// the credential may contain the character the cache key form rewrites ('%' is stored as '/')
+	cred := "email:alice" + []string{"a", "%", "/"}[verifChoose("credChar", 3)] + "x@example.com"
+	key := "code_" + strings.ReplaceAll(cred, "%", "/")
 	stored := verifNondetString("stored", 4, 4, verifDigits)
 	count := verifChoose("count", maxRetries+2)
 	uid := types.Uid(12345)
@@ -74,8 +76,8 @@ func Harness_C12_code_lockout() {
 	ca := &authenticator{name: "code", codeLength: 4, lifetime: time.Hour, maxRetries: maxRetries}
 	pc := &verifPCache{m: map[string]string{}}
 	store.PCache = pc
-	cred := "tel:+15551234567"
-	key := "code_" + cred
+	cred := "tel:+1555" + []string{"1", "%", "/"}[verifChoose("credChar", 3)] + "234567"
+	key := "code_" + strings.ReplaceAll(cred, "%", "/")
 	stored := verifNondetString("stored", 4, 4, verifDigits)
 	pc.m[key] = stored + ":0:" + types.Uid(7).String()
 	for i := 0; i < maxRetries; i++ {
